@@ -44,6 +44,23 @@ CHECKS = {
    note='seeds are an oracle (contract: rows of the valid data, checked); iterations with near-tie assignments (gap < 1e-4) are discarded from the replication stream and counted; a training first call also performs one EMA step (empty clusters then sit at the origin).',
    technique='Coq proof (reals, induction over iterations, convex combinations) + regenerated dataflow/guards + per-iteration correspondence and state invariants evaluated in Coq',
    ref='DESIGN.md section 4 C14'),
+ 'C09': dict(
+   text='Theorems (Coq, reals, all masks / padding contents / assignments of padded tokens): the statistics of a masked batch are those of its valid tokens; two batches that agree on the valid positions give the same accumulated statistics and the same whole state update '
+        '(EMA, normalisation, expiry), whatever sits in the padding and whatever indices padded tokens receive; k-means sees valid tokens only; with heads folded into the batch the flattened token (b,h,n) is valid iff mask[b][n]; '
+        'outputs at padded positions are the fill value and independent of the computation there; masked mean losses depend on valid tokens only. '
+        'Tie: one-hot zeroing guard, mask replication pattern, valid-token selection (k-means, expiry), loss masks and fill values regenerated from the source and pinned; paired runs on 26 configurations (same valid tokens, adversarial padding, ragged masks / lens, multi-step histories) '
+        'compared bit-exactly on outputs, indices, every loss term and state_dict; padded positions = -1 / fill; masked call = call on the truncated sequence; recorded calls stepped on valid tokens through the model in Coq.',
+   note='known findings (listed in known_findings.json, reported as KNOWN-FINDING): diversity loss averages over padded positions; shared-codebook ResidualVQ end-of-forward expiry ignores the mask; LFQ / ResidualLFQ mask is loss-only (no -1, output depends on padding). Two defects were repaired (fix: 892caae, f30bcfa).',
+   technique='Coq proof (reals, lock-step list induction) + regenerated guards/dataflow + paired-run correspondence (bit-exact) with model replay in Coq',
+   ref='DESIGN.md section 4 C09'),
+ 'C20': dict(
+   text='Theorems (Coq, axiom-free, all histories of forwards and optimiser steps writing arbitrary values): a store entry that is neither a forward write site nor a Parameter keeps its value forever; instantiated on the inventories regenerated from the source: '
+        'SimVQ.frozen_codebook, RandomProjectionQuantizer.rand_projs, FSQ _levels/_basis/implicit_codebook and LFQ codebook/mask are buffers (never Parameters) and no forward/decode method of those classes contains a write site; '
+        'the RPQ inner codebook is pure because eval() is forced before the call (pinned order) and evaluation calls are pure (C08), so equal inputs give equal indices; the codebook is a Parameter only if learnable. '
+        'Tie: inventories, write sites, eval-forcing order, SimVQ codebook expression regenerated and pinned; live module registries compared with the inventories in Coq; random loops of train/eval forwards, backward, SGD/Adam(+weight decay) steps with bit-exact comparison of every designated tensor.',
+   note='optimisers are modelled as "may write any value into any Parameter, nothing else"; observation: the inner VectorQuantize of RandomProjectionQuantizer owns a trainable projection (codebook_dim is not forwarded), so optimiser steps can change its indices - outside the property, which speaks about forward calls.',
+   technique='Coq proof (induction over operation lists on a named store + computation on regenerated inventories) + regenerated inventories/write sites + random-loop correspondence (bit-exact)',
+   ref='DESIGN.md section 4 C20'),
  'C12': dict(
    text='Theorems (Coq, axiom-free, all n, cutoff, multiple_of, draws r): the layers that run are exactly the prefix {0..k-1} with k = min(n, round_up(r+1, m)); cutoff < k <= n; m | k or k = n; '
         'dropped layers form a suffix; every admissible k is produced by some in-contract draw; dropout is off when not training / indices supplied / dropout disabled / one layer. '
